@@ -93,7 +93,7 @@ func checkAllConst(c *Ctx, cf *ssa.Function, ts *TypeSwitch, model map[string]*N
 			if g == nil || g.Blocks == nil || PkgPathOf(g) != PkgPathOf(cf) || grp[Origin(g)] {
 				return false
 			}
-			switch g.Name() {
+			switch NameOf(g) {
 			case "binaryEval", "lessEval", "SetWidth", "setWidth":
 				return false
 			}
@@ -157,7 +157,7 @@ func checkAllConst(c *Ctx, cf *ssa.Function, ts *TypeSwitch, model map[string]*N
 						as = append(as, vl.Root(a))
 					}
 					evalArgs = append(evalArgs, as)
-				case f != nil && PkgPathOf(f) == ExprPkg && strings.HasPrefix(f.Name(), "New"):
+				case f != nil && PkgPathOf(f) == ExprPkg && strings.HasPrefix(NameOf(f), "New"):
 					ctorCalls = append(ctorCalls, call)
 				}
 			}
@@ -303,7 +303,7 @@ func checkC09(c *Ctx) {
 				f := x.Call.StaticCallee()
 				var wArg ssa.Value
 				switch {
-				case f != nil && PkgPathOf(f) == ExprPkg && strings.HasPrefix(f.Name(), "New"):
+				case f != nil && PkgPathOf(f) == ExprPkg && strings.HasPrefix(NameOf(f), "New"):
 					okw = true // width pairing decided by C09.rebuild
 				case FuncNameIs(f, pkgXform+".binaryEval"):
 					wArg = x.Call.Args[3]
@@ -311,7 +311,7 @@ func checkC09(c *Ctx) {
 					wArg = x.Call.Args[1]
 				}
 				if wArg != nil {
-					if call, isCall := Unwrap(wArg).(*ssa.Call); isCall && call.Call.StaticCallee() != nil && call.Call.StaticCallee().Name() == "Width" {
+					if call, isCall := Unwrap(wArg).(*ssa.Call); isCall && call.Call.StaticCallee() != nil && NameOf(call.Call.StaticCallee()) == "Width" {
 						okw = true
 					}
 				}
@@ -342,31 +342,30 @@ func checkC09(c *Ctx) {
 		for _, k := range ops {
 			key := ShortName(bef) + "/case " + k.Name()
 			kv, _ := constInt64(k)
-			// find comparison op == kv and the function returned on its true edge
+			// binaryEvalFunc walked concretely (E7) with op = this operator: the
+			// function it returns, whether it is selected by a switch, an if chain
+			// or a lookup in a package-level table
 			var ret *ssa.Function
 			found := false
-			for _, b := range bef.Blocks {
-				iff, ok := b.Instrs[len(b.Instrs)-1].(*ssa.If)
-				if !ok {
-					continue
-				}
-				bo, ok := iff.Cond.(*ssa.BinOp)
-				if !ok || bo.Op != token.EQL {
-					continue
-				}
-				cv, isC := ConstInt(bo.Y)
-				if !isC {
-					cv, isC = ConstInt(bo.X)
-				}
-				if !isC || cv != kv {
-					continue
-				}
-				found = true
-				tb := b.Succs[0]
-				if r, ok := tb.Instrs[len(tb.Instrs)-1].(*ssa.Return); ok {
-					if f, ok := Unwrap(r.Results[0]).(*ssa.Function); ok {
-						ret = f
+			opParam := bef.Params[0]
+			vl := &Valuation{
+				Int: func(v ssa.Value) (int64, bool) {
+					if v == ssa.Value(opParam) {
+						return kv, true
 					}
+					return 0, false
+				},
+				Enter: SamePackage(bef),
+			}
+			res := vl.Walk(bef.Blocks[0], nil)
+			if !res.OK {
+				c.Undecide("C09.ops: %s cannot be walked for expr.%s: %s", ShortName(bef), k.Name(), res.Why)
+				continue
+			}
+			if _, isRet := res.End.(*ssa.Return); isRet && len(res.RetVal) > 0 && !IsNilConst(res.RetVal[0]) {
+				found = true
+				if f, _ := ResolveFunc(res.RetVal[0]); f != nil {
+					ret = f
 				}
 			}
 			switch {
@@ -374,7 +373,7 @@ func checkC09(c *Ctx) {
 				c.Fail("C09.ops", key, c.Prog.FuncPos(bef), "no case for expr."+k.Name())
 			case ret == nil:
 				c.Fail("C09.ops", key, c.Prog.FuncPos(bef), "case does not return an evaluator function")
-			case ret.Name() != k.Name() && opNames[ret.Name()]:
+			case NameOf(ret) != k.Name() && opNames[NameOf(ret)]:
 				c.Fail("C09.ops", key, c.Prog.FuncPos(bef), "expr."+k.Name()+" is evaluated by "+ShortName(ret))
 			default:
 				c.Pass("C09.ops", key, c.Prog.FuncPos(bef), ShortName(ret))
@@ -407,7 +406,7 @@ func checkC09(c *Ctx) {
 	if le := anchor(c, pkgXform+".lessEval"); le != nil {
 		ok := false
 		for _, cs := range Calls(le) {
-			if f := Callee(cs.Common()); f != nil && f.Name() == "Ltu" {
+			if f := Callee(cs.Common()); f != nil && NameOf(f) == "Ltu" {
 				a := cs.Common().Args
 				if matches(a[0], CallTo("internal/exprtransform/internal/expreval.ParseConst", ParamN(0))) &&
 					matches(a[1], CallTo("internal/exprtransform/internal/expreval.ParseConst", ParamN(1))) && matches(a[2], ParamN(2)) {
@@ -578,7 +577,7 @@ func checkC12(c *Ctx) {
 							if isWGA(call) != nil {
 								return cur().ok, true
 							}
-							if f := call.Call.StaticCallee(); f != nil && f.Name() == "purgeWidthGadgets" {
+							if f := call.Call.StaticCallee(); f != nil && NameOf(f) == "purgeWidthGadgets" {
 								return nested, true
 							}
 						}
@@ -723,7 +722,7 @@ func checkC12(c *Ctx) {
 								if call.Call.IsInvoke() && call.Call.Method.Name() == "Width" && call.Call.Value == ssa.Value(sw.Params[0]) {
 									return E, true
 								}
-								if f := call.Call.StaticCallee(); f != nil && f.Name() == "Width" && len(call.Call.Args) == 1 {
+								if f := call.Call.StaticCallee(); f != nil && NameOf(f) == "Width" && len(call.Call.Args) == 1 {
 									return E, true
 								}
 							}
@@ -823,7 +822,7 @@ func checkC12(c *Ctx) {
 				return false
 			}
 			g, ok := u.X.(*ssa.Global)
-			return ok && g.Name() == "Zero" && g.Pkg.Pkg.Path() == ExprPkg
+			return ok && NameOf(g) == "Zero" && g.Pkg.Pkg.Path() == ExprPkg
 		}
 		okBuild := false
 		for _, b := range nwg.Blocks {
@@ -843,7 +842,7 @@ func checkC12(c *Ctx) {
 			vl = &Valuation{
 				Enter: SamePackage(wga),
 				Int: func(v ssa.Value) (int64, bool) {
-					if call, ok := v.(*ssa.Call); ok && call.Call.StaticCallee() != nil && call.Call.StaticCallee().Name() == "Op" {
+					if call, ok := v.(*ssa.Call); ok && call.Call.StaticCallee() != nil && NameOf(call.Call.StaticCallee()) == "Op" {
 						if opAdd {
 							return addV, true
 						}
@@ -863,7 +862,7 @@ func checkC12(c *Ctx) {
 							}
 						}
 					case *ssa.Call:
-						if f := x.Call.StaticCallee(); f != nil && f.Name() == "Equal" && len(x.Call.Args) == 2 && (isZero(x.Call.Args[1], nil) || isZero(x.Call.Args[0], nil)) {
+						if f := x.Call.StaticCallee(); f != nil && NameOf(f) == "Equal" && len(x.Call.Args) == 2 && (isZero(x.Call.Args[1], nil) || isZero(x.Call.Args[0], nil)) {
 							return isZ, true
 						}
 					}
